@@ -206,3 +206,98 @@ package evaluator
 //@   modifies *m.Order, (*m.Order)[*], m.Pairs[*]
 //@   loop 1 invariant -1 <= rangeindex && rangeindex < n0 && forall(j, int, 0 <= j && j <= rangeindex ==> (*m.Order)[j] != key)
 //@   loop 1 decreases n0 - rangeindex
+
+// ---- scopes (docs/spec.md, Scope) ----
+// The values map of a scope is reachable only through that scope (checked syntactically on every run).
+//@ owned scope.values
+//@ typeinv scope: self.values != nil
+// bound / lookup: the lexical resolution of a name along the chain of enclosing scopes.
+//@ pure bound(s *scope, name string) bool = s != nil && (has(s.values, name) || bound(s.outer, name))
+//@ pure lookup(s *scope, name string) value = ite(s == nil, nil, ite(has(s.values, name), s.values[name], lookup(s.outer, name)))
+
+//@ func (s *scope) get(name string) (r value, ok bool)
+//@   props C10
+//@   opt nilrecv
+//@   ensures[C10 blank] s == nil || name == "_" ==> r == nil && !ok
+//@   ensures[C10 innermost] s != nil && name != "_" ==> ok == bound(s, name) && (ok ==> r == lookup(s, name))
+//@   ensures[C10 unbound] !ok ==> r == nil
+//@   mustfail ensures[C10 canary] ok ==> r == s.values[name]
+//@   modifies nothing
+
+//@ func (s *scope) set(name string, val value)
+//@   props C10 C09
+//@   ensures[C10 blank] name == "_" ==> forall(k, string, has(s.values, k) == old(has(s.values, k)) && s.values[k] == old(s.values[k]))
+//@   ensures[C10 C09 bound] name != "_" ==> has(s.values, name) && s.values[name] == val
+//@   ensures[C10 others] forall(k, string, k != name ==> has(s.values, k) == old(has(s.values, k)) && s.values[k] == old(s.values[k]))
+//@   modifies s.values[*]
+
+//@ func (s *scope) update(name string, val value)
+//@   props C10 C09
+//@   requires name == "_" || bound(s, name)
+//@   ensures[C10 domains] forall(t, *scope, forall(k, string, has(t.values, k) == old(has(t.values, k))))
+//@   ensures[C10 other-names] forall(t, *scope, forall(k, string, k != name || name == "_" ==> t.values[k] == old(t.values[k])))
+//@   ensures[C10 C09 innermost] name != "_" && old(has(s.values, name)) ==> s.values[name] == val && forall(t, *scope, t.values != s.values ==> t.values[name] == old(t.values[name]))
+//@   ensures[C10 only-where-bound] forall(t, *scope, !old(has(t.values, name)) ==> t.values[name] == old(t.values[name]))
+//@   mustfail ensures[C10 canary] s.values[name] == val
+//@   modifies owned scope.values
+
+// ---- for ... range iterators (docs/spec.md, Loops) ----
+//@ typeinv arrayRange: self.array != nil
+//@ typeinv mapRange: self.mapVal != nil
+//@ typeinv stringRange: self.str != nil
+
+//@ func (s *stepRange) next(scope *scope, loopVarName string) (ok bool)
+//@   props C10 C09
+//@   requires scope != nil && (loopVarName == "_" || bound(scope, loopVarName))
+//@   let lv = scope.values[loopVarName]
+//@   ensures[C10 stop] ok == !((s.step > 0 && old(s.cur) >= s.stop) || (s.step < 0 && old(s.cur) <= s.stop))
+//@   ensures[C10 advance] ok ==> same(s.cur, old(s.cur) + s.step)
+//@   ensures[C10 C09 loopvar] ok && loopVarName != "_" && old(has(scope.values, loopVarName)) ==> is(lv, *numVal) && fresh(lv) && same(lv.(*numVal).V, old(s.cur))
+//@   ensures[C10 done] !ok ==> same(s.cur, old(s.cur)) && forall(t, *scope, forall(k, string, t.values[k] == old(t.values[k])))
+//@   ensures[C10 range-fixed] same(s.stop, old(s.stop)) && same(s.step, old(s.step))
+//@   mustfail ensures[C10 canary] ok
+//@   modifies s.cur, owned scope.values
+
+//@ func (a *arrayRange) next(scope *scope, loopVarName string) (ok bool)
+//@   props C10 C09
+//@   requires scope != nil && (loopVarName == "_" || bound(scope, loopVarName))
+//@   requires 0 <= a.cur
+//@   let els = *a.array.Elements
+//@   let lv = scope.values[loopVarName]
+//@   ensures[C10 stop] ok == (old(a.cur) < len(els))
+//@   ensures[C10 advance] a.cur == ite(ok, old(a.cur)+1, old(a.cur))
+//@   ensures[C10 C09 loopvar] ok && loopVarName != "_" && old(has(scope.values, loopVarName)) ==> lv == els[old(a.cur)]
+//@   ensures[C10 done] !ok ==> forall(t, *scope, forall(k, string, t.values[k] == old(t.values[k])))
+//@   ensures[C10 same-array] a.array == old(a.array)
+//@   mustfail ensures[C10 canary] ok
+//@   modifies a.cur, owned scope.values
+
+//@ func (m *mapRange) next(scope *scope, loopVarName string) (ok bool)
+//@   props C10 C12 C09
+//@   requires scope != nil && (loopVarName == "_" || bound(scope, loopVarName))
+//@   requires 0 <= m.cur && m.cur <= len(m.order)
+//@   let c0 = old(m.cur)
+//@   let lv = scope.values[loopVarName]
+//@   ensures[C12 C10 visits-present] ok ==> c0 < m.cur && m.cur <= len(m.order) && has(m.mapVal.Pairs, m.order[m.cur-1])
+//@   ensures[C12 C10 skips-deleted] forall(i, int, c0 <= i && i < ite(ok, m.cur-1, len(m.order)) ==> !has(m.mapVal.Pairs, m.order[i]))
+//@   ensures[C12 C10 done] !ok ==> m.cur >= len(m.order) && forall(t, *scope, forall(k, string, t.values[k] == old(t.values[k])))
+//@   ensures[C12 C10 C09 loopvar] ok && loopVarName != "_" && old(has(scope.values, loopVarName)) ==> is(lv, *stringVal) && fresh(lv) && lv.(*stringVal).V == m.order[m.cur-1]
+//@   ensures[C12 snapshot-kept] m.order == old(m.order) && m.mapVal == old(m.mapVal)
+//@   mustfail ensures[C12 canary] ok ==> m.cur == c0+1
+//@   modifies m.cur, owned scope.values
+//@   loop 1 invariant c0 <= m.cur && m.cur <= len(m.order) && forall(i, int, c0 <= i && i < m.cur ==> !has(m.mapVal.Pairs, m.order[i]))
+//@   loop 1 modifies m.cur
+//@   loop 1 decreases len(m.order) - m.cur
+
+//@ func (s *stringRange) next(scope *scope, loopVarName string) (ok bool)
+//@   props C10 C09
+//@   requires scope != nil && (loopVarName == "_" || bound(scope, loopVarName))
+//@   requires 0 <= s.cur
+//@   requires base(s.runes) == 0 || (len(s.runes) == rlen(s.str.V) && off(s.runes) == 0 && contents(s.runes) == runes(s.str.V))
+//@   let lv = scope.values[loopVarName]
+//@   ensures[C10 stop] ok == (old(s.cur) < rlen(s.str.V))
+//@   ensures[C10 advance] s.cur == ite(ok, old(s.cur)+1, old(s.cur))
+//@   ensures[C10 C09 loopvar] ok && loopVarName != "_" && old(has(scope.values, loopVarName)) ==> is(lv, *stringVal) && fresh(lv) && lv.(*stringVal).V == fromRune(runes(s.str.V)[old(s.cur)])
+//@   ensures[C10 cache] len(s.runes) == rlen(s.str.V) && off(s.runes) == 0 && contents(s.runes) == runes(s.str.V) && s.str == old(s.str) && s.str.V == old(s.str.V)
+//@   mustfail ensures[C10 canary] ok
+//@   modifies s.cur, s.runes, s.str.runeSlice, owned scope.values
